@@ -19,7 +19,9 @@ import Mixin.Model.Validate
   SIGS = - | n (m (idx sig)…)…          AGG = - | sig n signer…
   ORACLE = nK id… nV (key sig)… aggAnswer nAggKeys k… claimSig updSig scalarOk ghostEq
            (- | custAddr n (caddr paddr)…)
-  Ids and integers are decimal; scripts are hex.
+  Ids and integers are decimal; scripts are hex. A later ledger line with the same key replaces
+  an earlier one (entries are prepended, lookups take the first match).
+    batch n b…   (individual Verify answers of a signature batch)
 -/
 namespace Mixin.Driver.Validate
 open Mixin.Proto Mixin.Validate
@@ -113,7 +115,7 @@ def finish {α} (p : P α) (t : List String) : Option α :=
   | _ => none
 
 def siteName : Site → String
-  | .GetExtraLimit => "GetExtraLimit" | .PayloadMarshal => "PayloadMarshal"
+  | .GetExtraLimit => "GetExtraLimit" | .Validate => "Validate"
   | .validateUTXO => "validateUTXO" | .validateInputs => "validateInputs"
   | .validateMint => "validateMint" | .verifyDepositData => "verifyDepositData"
   | .validateDeposit => "validateDeposit" | .validateWithdrawalClaim => "validateWithdrawalClaim"
@@ -137,7 +139,7 @@ def step (L : Ledger) (t : List String) : Ledger × String :=
       let hash ← nat; let index ← nat; let type ← nat; let asset ← nat; let amount ← nat
       let lock ← nat; let mask ← nat; let sc ← script; let keys ← listOf nat
       pure ({ hash, index, type, asset, amount, keys, mask, script := sc, lock } : Utxo)) r with
-    | some u => ({ L with utxos := L.utxos ++ [u] }, "ok")
+    | some u => ({ L with utxos := u :: L.utxos }, "ok")
     | none => (L, "bad-op")
   | "stx" :: r =>
     match finish (do
@@ -146,7 +148,7 @@ def step (L : Ledger) (t : List String) : Ledger × String :=
       let inputs ← listOf (pair nat nat); let outputs ← listOf output
       pure ({ hash, payloadHash, finalized, txType, extraId, signerAddr, signerSpend, inputs,
               outputs } : StoredTx)) r with
-    | some s => ({ L with txs := L.txs ++ [s] }, "ok")
+    | some s => ({ L with txs := s :: L.txs }, "ok")
     | none => (L, "bad-op")
   | "node" :: r =>
     match finish (do
@@ -169,19 +171,24 @@ def step (L : Ledger) (t : List String) : Ledger × String :=
     match finish (do
       let id ← nat; let chain ← nat; let assetKey ← nat; let balance ← nat
       pure ({ id, chain, assetKey, balance } : AssetRec)) r with
-    | some a => ({ L with assets := L.assets ++ [a] }, "ok")
+    | some a => ({ L with assets := a :: L.assets }, "ok")
     | none => (L, "bad-op")
   | "dlock" :: r =>
     match finish (pair nat nat) r with
-    | some p => ({ L with depositLocks := L.depositLocks ++ [p] }, "ok")
+    | some p => ({ L with depositLocks := p :: L.depositLocks }, "ok")
     | none => (L, "bad-op")
   | "glock" :: r =>
     match finish (pair nat nat) r with
-    | some p => ({ L with ghostLocks := L.ghostLocks ++ [p] }, "ok")
+    | some p => ({ L with ghostLocks := p :: L.ghostLocks }, "ok")
     | none => (L, "bad-op")
   | "validate" :: r =>
     match finish validateLine r with
     | some (tx, o, fork) => (L, showOutcome (validate L o tx fork))
+    | none => (L, "bad-op")
+  | "batch" :: r =>
+    -- BatchVerify is modelled as the conjunction of the individual answers over a non-empty batch
+    match finish (listOf bool) r with
+    | some bs => (L, s!"ok {!bs.isEmpty && bs.all id}")
     | none => (L, "bad-op")
   | _ => (L, "bad-op")
 
